@@ -35,7 +35,7 @@ HARNESS = dict(
     repo_sources=["dune/common/exceptions.cc", "dune/common/stdstreams.cc"],
     # many template instantiations: compile without optimisation and without the UBSan checks that are irrelevant
     # here (null/alignment/vptr/object-size); ASan, signed overflow, shifts and bounds stay on
-    flags=["-O0", "-fno-sanitize=null,alignment,vptr,object-size,nonnull-attribute,returns-nonnull-attribute"],
+    flags=["-O0", "-g1", "-fno-sanitize=null,alignment,vptr,object-size,nonnull-attribute,returns-nonnull-attribute"],
 )
 RULE = ("cases: (a) enumeration of every instantiated extents type (32 static/dynamic patterns, ranks 0..4, index types "
         "int/size_t/short) x layout left/right/stride x all dynamic extents in 0..3 (quick) / 0..4 (thorough), each case "
